@@ -83,6 +83,9 @@ func (ex *Exec) ropeCut(v Value, sep string, site ssa.Instruction) (Value, Value
 				}
 				continue
 			}
+			if digitOnlyTerm(x) && !strings.ContainsAny(sep, "0123456789-") {
+				continue
+			}
 			if ex.branch(tStrContains(x, mkStr(sep)), site) {
 				j := tStrIndexOf(x, mkStr(sep), mkInt(0))
 				b := tStrSubstr(x, mkInt(0), j)
@@ -184,7 +187,16 @@ func (ex *Exec) ropeHasPrefix(r *Rope, p *Term) *Term {
 			return tTrue
 		}
 	}
-	panic(unsupported(fmt.Sprintf("HasPrefix(%q) on rope", ps)))
+	var desc []string
+	for _, p := range r.parts {
+		switch x := p.(type) {
+		case *Term:
+			desc = append(desc, valString(x))
+		case *JNode:
+			desc = append(desc, "<json>")
+		}
+	}
+	panic(unsupported(fmt.Sprintf("HasPrefix(%q) on rope %v", ps, desc)))
 }
 
 func (ex *Exec) ropeHasSuffix(r *Rope, p *Term) *Term {
@@ -295,4 +307,17 @@ func ropeJSON(v Value) (*JNode, bool) {
 		}
 	}
 	return node, node != nil
+}
+
+// digitOnlyTerm: terms known to render as an optional '-' and decimal digits.
+func digitOnlyTerm(x *Term) bool {
+	switch x.Op {
+	case "str.from_int":
+		return true
+	case "var":
+		return strings.HasPrefix(x.K.(string), "itoa!")
+	case "str.from_code":
+		return x.K == "digit"
+	}
+	return false
 }
